@@ -24,11 +24,17 @@ struct evm_host {
 	int (*reap)(double w, int *pid, int *status);
 	/* fetch next pending signal number, 0 if none */
 	int (*next_signal)(double w);
+	/* the wall clock right now (ev_time()); it runs on while callbacks
+	 * execute, so it may be ahead of the loop time.  NULL: loop time. */
+	double (*clock)(void);
 	/* a key for permuting io events of iteration ITER */
 	unsigned long (*io_perm)(unsigned long iter);
 	/* trace hooks (may be NULL) */
 	void (*tr_iter)(unsigned long iter, double w);
 	void (*tr_resched)(ev_periodic *w, double now, double ret);
+	/* all periodics are about to be / have been rescheduled outside of
+	 * an expiry (libev's periodics_reschedule() after ev_loop_fork()) */
+	void (*tr_resched_all)(int begin);
 	void (*tr_cb)(const char *kind, void *w, int revents);
 	void (*tr_cb_done)(const char *kind, void *w);
 	void (*tr_start)(const char *kind, void *w);
